@@ -100,7 +100,12 @@ def main():
         if f is not None:
             known.append((f, name, os_))
             continue
-        if baseline and name not in baseline:
+        universal = all(o.get("kind") in ("frame", "no_exception", "emit", "commit", "requires", "wiring", "callback")
+                        for o in os_)
+        if baseline and name not in baseline and not universal:
+            # (instances of the blanket rules - nothing outside `modifies` changes, no exception escapes, callee
+            # preconditions hold, frames only from a clean state, every commit point recoverable - held at every
+            # site of the unchanged tree: a failing new instance is a violation, not an unknown)
             newfail.append((name, os_))
             continue
         violations.append((name, os_))
